@@ -3,12 +3,12 @@
 # Works in a scratch worktree of /repo HEAD (outside /repo and /verif) with the commit reverse-applied; never touches /repo.
 set -u
 C=$1; shift
-WT=/tmp/refix-$C
+WT=/tmp/refix-$C-$$
 rm -rf $WT; git -C /repo worktree prune; git -C /repo worktree add --detach $WT HEAD >/dev/null 2>&1 || { echo "worktree failed"; exit 2; }
-trap 'git -C /repo worktree remove --force '$WT' >/dev/null 2>&1; rm -rf '$WT' /tmp/refixout-'$C EXIT
+trap 'git -C /repo worktree remove --force '$WT' >/dev/null 2>&1; rm -rf '$WT' /tmp/refixout-'$C-$$ EXIT
 git -C /repo show $C | git -C $WT apply -R || { echo "cannot reverse-apply $C"; exit 2; }
 for ID in "$@"; do
-  OUT=$(VERIF_REPO=$WT VERIF_BUILD=/tmp/refixout-$C/build VERIF_OUT=/tmp/refixout-$C timeout ${TMO:-1800} /verif/vcheck $ID --tier ${TIER:-quick} 2>&1); RC=$?
+  OUT=$(VERIF_REPO=$WT VERIF_BUILD=/tmp/refixout-$C-$$/build VERIF_OUT=/tmp/refixout-$C-$$ timeout ${TMO:-1800} /verif/vcheck $ID --tier ${TIER:-quick} 2>&1); RC=$?
   N=$(echo "$OUT" | grep -c "^VIOLATION property=$ID")
   echo "REVERT $C ($(git -C /repo log -1 --format=%s $C | cut -c1-60)) check $ID: rc=$RC violations=$N :: $(echo "$OUT" | grep -m1 'signature:')"
 done
